@@ -343,7 +343,7 @@ func (ii *invertedIndex) findSeriesIDsByKeyFromMem(key uint32, seriesIDs *roarin
 func (ii *invertedIndex) prepareFlush() {
 	ii.lock.Lock()
 	defer ii.lock.Unlock()
-	if ii.immutable == nil {
+	if ii.immutable == nil || ii.immutable.IsEmpty() { // an empty immutable store must not block the swap forever
 		ii.immutable = ii.mutable
 		ii.mutable = imap.NewIntMap[*roaring.Bitmap]()
 	}
@@ -556,7 +556,7 @@ func (fi *forwardIndex) withLock() (release func()) {
 func (fi *forwardIndex) prepareFlush() {
 	fi.lock.Lock()
 	defer fi.lock.Unlock()
-	if fi.immutable == nil {
+	if fi.immutable == nil || fi.immutable.IsEmpty() { // an empty immutable store must not block the swap forever
 		fi.immutable = fi.mutable
 		fi.mutable = imap.NewIntMap[*imap.IntMap[uint32]]()
 	}
